@@ -583,7 +583,7 @@ class MethodMixin:
         i, f = self.re_syms(pat, name)
         matched = f(s)
         notes = set()
-        if not self.cur_pure():
+        if not self.cur_pure() and (len(args) > 1 or getattr(self.cur_contract, 'match_text_facts', False)):
             # the matched text: a piece of the subject (a prefix for match, everything for fullmatch), in the language of the
             # pattern when that is translatable
             g0 = self.re_group_syms(pat, name, 0)[0](s)
